@@ -387,29 +387,61 @@ def slice_of(idx):
     return (s.start, s.stop, s.step)
 
 
+def alt_form(rnd, L, n):
+    """a slice tuple selecting the arithmetic progression L of range(n), written with negative / open bounds at random"""
+    s = T.range_slice(L)
+    a, b, c = s.start, s.stop, s.step
+    if c in (None, 1) and rnd.random() < 0.5:
+        c = None
+    if a is not None and rnd.random() < 0.4:
+        a = a - n if (c is None or c > 0 or a - n < 0) else a
+    if (c is None or c > 0):
+        if b is not None and b >= n and rnd.random() < 0.6:
+            b = None
+        elif b is not None and 0 < b < n and rnd.random() < 0.4:
+            b = b - n
+        if a == 0 and rnd.random() < 0.5:
+            a = None
+    return (a, b, c)
+
+
 def two_level_slices(rnd, n):
-    """(rows, cols) index lists, both arithmetic progressions: equal selections, equal index SETS in a different order
-    (one axis reversed), shifted selections of equal length, unrelated ones"""
+    """(rows, cols) as slice tuples: equal selections, equal index SETS in a different order (one axis reversed), shifted
+    selections of equal length, OFF-DIAGONAL blocks of equal size (both starts >= the block size) and CORNER blocks
+    (A[-k:, :k], A[:k, -k:]) - all of which must NOT inherit SelfAdjoint/PSD -, unrelated ones"""
     def prog():
         st = rnd.choice([1, 1, 2, 3])
         a = rnd.randint(0, n - 1)
         k = rnd.randint(1, (n - 1 - a) // st + 1)
         return [a + i * st for i in range(k)]
-    kind = rnd.choice(["equal", "equal_rev", "rev_rows", "rev_cols", "rev_rows", "rev_cols", "shift", "free"])
+    kind = rnd.choice(["equal", "equal_rev", "rev_rows", "rev_cols", "shift", "free", "offdiag", "offdiag", "corner", "corner"])
     L = prog()
     if kind == "equal":
-        return L, L
+        f = alt_form(rnd, L, n)
+        return (f, f) if rnd.random() < 0.5 else (f, alt_form(rnd, L, n))
     if kind == "equal_rev":
-        return L[::-1], L[::-1]
+        return slice_of(L[::-1]), slice_of(L[::-1])
     if kind == "rev_rows":
-        return L[::-1], L
+        return slice_of(L[::-1]), alt_form(rnd, L, n)
     if kind == "rev_cols":
-        return L, L[::-1]
-    if kind == "shift":
+        return alt_form(rnd, L, n), slice_of(L[::-1])
+    if kind == "offdiag" and n >= 5:
+        k = rnd.randint(2, (n - 1) // 2)
+        starts = [a for a in range(k, n - k + 1)]
+        if len(starts) >= 2:
+            a, b = rnd.sample(starts, 2)
+            return alt_form(rnd, list(range(a, a + k)), n), alt_form(rnd, list(range(b, b + k)), n)
+    if kind == "corner" and n >= 3:
+        k = rnd.randint(2, n - 1)
+        lo, hi = (None, k, None), (-k, None, None)
+        if rnd.random() < 0.3:
+            lo, hi = alt_form(rnd, list(range(k)), n), alt_form(rnd, list(range(n - k, n)), n)
+        return (hi, lo) if rnd.random() < 0.5 else (lo, hi)
+    if kind in ("shift", "offdiag", "corner"):
         k = len(L)
         a, b = rnd.randint(0, n - k), rnd.randint(0, n - k)
-        return list(range(a, a + k)), list(range(b, b + k))
-    return prog(), prog()
+        return alt_form(rnd, list(range(a, a + k)), n), alt_form(rnd, list(range(b, b + k)), n)
+    return alt_form(rnd, prog(), n), alt_form(rnd, prog(), n)
 
 
 def annotated_cases(ctx, present, n_cases, pools, sparse_ties):
@@ -420,7 +452,7 @@ def annotated_cases(ctx, present, n_cases, pools, sparse_ties):
     tries = 0
     while len(out) < n_cases and tries < 40 * n_cases:
         tries += 1
-        n = rnd.randint(2, 6)
+        n = rnd.randint(2, 9)
         dt = rnd.choice(T.DTS)
         parent, psd = herm_parent(rnd, n, dt, sparse_ties, present)
         if T.absbound(parent) * 5 * n > 2 ** 20:
@@ -431,9 +463,12 @@ def annotated_cases(ctx, present, n_cases, pools, sparse_ties):
         if rnd.random() < 0.2:
             c = dict(tree=parent, m=n, n=n, cplx=dt in T.CPLX, ann=ann)
         else:
-            rs, cs = two_level_slices(rnd, n)
+            s1, s2 = two_level_slices(rnd, n)
+            rs, cs = list(range(n))[slice(*s1)], list(range(n))[slice(*s2)]
+            if not rs or not cs:
+                continue
             c = dict(tree=dict(k="Sliced", a=parent, rs=rs, cs=cs), m=len(rs), n=len(cs), cplx=dt in T.CPLX,
-                     two=dict(ann=ann, s1=slice_of(rs), s2=slice_of(cs)))
+                     two=dict(ann=ann, s1=s1, s2=s2))
         c["queries"] = make_queries(rnd, c, pools, present, nslice=6)
         out.append(c)
     return out
@@ -490,6 +525,16 @@ def gen_cases(ctx, present, n_extra, passes):
             continue
         c["queries"] = make_queries(rnd, c, pools, present, nslice=12)
         cases.append(c)
+    # long list pairs: lengths straddling 64 / 100 / 128 / 256 / 512 / 1024 (blocked implementations), on small and mid-size operators
+    lens = [63, 65, 100, 129, 255, 257, 300, 511, 513, 600, 1023, 1025]
+    picks = rnd.sample(lens, ctx.budget(4, len(lens))) + [rnd.choice([257, 300, 513, 600]), rnd.choice([1025, 700])]
+    pool = [c for c in cases if c["m"] * c["n"] <= 60 and not O.has_kind(c["tree"], ("KronSum",))]
+    for ln in picks:
+        if not pool:
+            break
+        c = rnd.choice(pool)
+        m, n = c["m"], c["n"]
+        c["queries"].append(dict(ix=["two", ["list", [rnd.randint(-m, m - 1) for _ in range(ln)]], ["list", [rnd.randint(-n, n - 1) for _ in range(ln)]]]))
     # phase 3: annotated operators and two-level indexing
     cases += annotated_cases(ctx, present, ctx.budget(90, 1200), pools, sparse_ties)
     return cases, pools, exhaustive_cases
